@@ -599,12 +599,56 @@ def explore_steps(w_args, menu_fn, splits=None, clauses=None, procs=None, deadli
         return recs, ps.st.as_dict(), len(menu)
 
     if splits is None:
-        w0 = World(**w_args)
+        try:
+            w0 = World(**w_args)
+        except Exception as e:   # noqa
+            if type(e).__name__ == "Aliasing":
+                return [("ALIAS", e.what, 0)]
+            raise
         n = len(menu_fn(w0))
         import os
         k = procs or min(16, os.cpu_count() or 4)
         splits = [list(range(r, n, k)) for r in range(k) if r < n]
     return par_explore(worker, splits, procs)
+
+
+def alias_native(what):
+    """native confirmation: two distinct identifiers observed at one address really share state on a real store"""
+    import logging
+    import shutil
+    from . import loader
+    from .universe import scratch_root
+    logging.disable(logging.CRITICAL)
+    MN = loader.load("filehashstore.py")
+    root = scratch_root()
+    out = []
+    try:
+        for group in what:
+            a, b = tuple(group[0]), tuple(group[1])
+            s = MN.FileHashStore(dict(store_path=root + "/s%d" % len(out), store_depth=3, store_width=2,
+                                      store_algorithm="SHA-256", store_metadata_namespace="ns"))
+            for name, data in (("fa", b"AAAA"), ("fb", b"BBBB")):
+                with open(root + "/" + name, "wb") as fh:
+                    fh.write(data)
+            if a[0] == "pid":
+                s.store_object(a[1], root + "/fa")
+                try:
+                    s.store_object(b[1], root + "/fb")
+                    got = s.retrieve_object(a[1]).read()
+                    ok = got == b"AAAA" and s.retrieve_object(b[1]).read() == b"BBBB"
+                except Exception as e:   # noqa
+                    ok, got = False, type(e).__name__
+                out.append((a[1], b[1], ok, got))
+            else:
+                s.store_metadata(a[1], root + "/fa", a[2])
+                s.store_metadata(b[1], root + "/fb", b[2])
+                got = s.retrieve_metadata(a[1], a[2]).read()
+                out.append((a[1:], b[1:], got == b"AAAA", got))
+        bad = [o for o in out if not o[2]]
+        return bool(bad), ("native run (unpatched code, real file system): storing under the second identifier "
+                           "affects the first: %r" % (bad,))
+    finally:
+        shutil.rmtree(root, ignore_errors=True)
 
 
 def replay_native(w_args, menu_fn, vals, want_clauses):
